@@ -81,7 +81,7 @@ def run_spec(spec, rep, tier, seed, coq=None):
     cases = uniq
 
     def run_impl(cs):
-        out, diags = pv.run_parallel([exe], cs, shard=spec.shard, timeout=spec.timeout)
+        out, diags = pv.run_parallel([exe], cs, shard=spec.shard, timeout=spec.timeout, env=getattr(spec, "env", None))
         return [spec.canon_impl(o) for o in out]
 
     def run_model(cs):
